@@ -204,7 +204,8 @@ def dubinsExhaustive (m2p : α → α) (d alpha beta : α) : Option (Path α) :=
 
 def cscTmpLSR (d alpha beta : α) : α :=
   let ca := Num.cos alpha; let sa := Num.sin alpha; let cb := Num.cos beta; let sb := Num.sin beta
-  -2 + d * d + 2 * (ca * cb + sa * sb + d * (sa + sb))
+  let tmp := -2 + d * d + 2 * (ca * cb + sa * sb + d * (sa + sb))
+  tmp
 
 def p_lsr (d alpha beta : α) : α := DNum.sqrtf (Num.max (cscTmpLSR d alpha beta) 0)
 
@@ -453,7 +454,7 @@ def choosePath (rho : α) (sym : Bool) (frm to : Pose α) : Res α :=
   | .nopath =>
     if sym then
       match dubinsStates rho to frm with
-      | .path _ => .nopath     -- `DBL_MAX < DBL_MAX` style comparisons are outside the model
+      | .path P2 => .path { P2 with rev := true }     -- finite < DBL_MAX
       | r => r
     else .nopath
   | .unclassified => .unclassified
